@@ -11,6 +11,7 @@ CONSTANTS
   Tmo = {0, 1, 2}
   Horizon = 4
   AllowFaults = FALSE
+  AllowCancel = FALSE
   AbstractTime = FALSE
   LeakSearchIdOnDone = FALSE
   AbandonKeepsTargetId = FALSE
